@@ -273,6 +273,17 @@ def run(R):
                     dis.append({"identifier": ident, "search": search, "replace": replace, "model": repr(mv)[:300], "real": repr(rv)[:300]})
     H.close()
     M.close()
+    # the conclusions of the camelCase / Train-Case / Title Case locality theorems (Proofs/CompoundP3.v) on the real function
+    hp2, _ = core.build_harness()
+    rc, out, dt = core.sh(["python3", str(core.VERIF / "lib" / "compoundloc_difftest.py"), str(R.seed + 7), "600" if R.tier == "quick" else "20000"],
+                          env=dict(core.ENV, RN_HARNESS=str(hp2)), timeout=3000)
+    m = __import__("re").search(r"cases (\d+) mismatches (\d+)", out)
+    stats["locality_theorems_on_real_matcher"] = {"instances": int(m.group(1)), "mismatches": int(m.group(2))} if m else None
+    if not m or int(m.group(1)) == 0:
+        dis.append({"why": "the locality-theorem replay did not complete", "log": out[-800:]})
+    elif int(m.group(2)) > 0:
+        dis.append({"why": "find_compound_variants contradicts the conclusion of a CompoundP3 locality theorem on an instance of its hypotheses",
+                    "instances": [l for l in out.splitlines() if l.startswith("MISMATCH")][:4]})
     R.coverage["input_distribution"] = stats
     R.disagreements = len(dis)
     if not has_model:
